@@ -66,25 +66,33 @@ theorem reported_parameters (d : DistInst) (hd : d ∈ Generated.C03.instances) 
   simp only [Bool.and_eq_true, beq_iff_eq] at this
   exact ⟨this.1.1.1, this.1.1.2, this.1.2⟩
 
-/-- **true minimum distance ≥ advertised** (every non-zero codeword), for every instance the kernel
-can enumerate that is not a listed finding; equality (a codeword of exactly that weight) where the
-value is documented as exact -/
+/-- **true minimum distance ≥ advertised** (every non-zero codeword), for every instance decided by full enumeration
+that is not a listed finding (the others: `min_distance_large`) -/
 theorem min_distance (d : DistInst) (hd : d ∈ Generated.C03.instances) (hk : d.knownBad = false)
     (hdec : d.decided = true) (hadv : d.advD ≠ 0) :
-    (∀ m, m ≠ 0 → m < 2 ^ d.k → d.advD ≤ weight d.n (encode d.G m)) ∧
-    (d.exact = true → ∃ m, m ≠ 0 ∧ m < 2 ^ d.k ∧ weight d.n (encode d.G m) = d.advD) := by
+    ∀ m, m ≠ 0 → m < 2 ^ d.k → d.advD ≤ weight d.n (encode d.G m) := by
   have hp := reported_parameters d hd
   have h := (parts (instances_ok d hd)).2.1 hk
   unfold distOk at h
   simp only [Bool.or_eq_true, beq_iff_eq, Bool.not_eq_true', Bool.and_eq_true, decide_eq_true_eq] at h
-  rcases h with (h | h) | h
+  rcases h with h | h
   · exact absurd h hadv
-  · rw [hdec] at h; cases h
-  · refine ⟨fun m h0 hm => ?_, fun hex => ?_⟩
-    · exact Nat.le_trans h.1 (spanMin_sound d.G d.n (d.n + 1) m h0 (by rw [hp.2.2]; exact hm))
-    · rcases h.2 with h2 | h2
-      · rw [hex] at h2; cases h2
-      · exact ⟨d.wit, by omega, h2.1.2, h2.2⟩
+  · rcases h.1 with h1 | h1
+    · rw [hdec] at h1; cases h1
+    · exact fun m h0 hm => Nat.le_trans h1 (spanMin_sound d.G d.n (d.n + 1) m h0 (by rw [hp.2.2]; exact hm))
+
+/-- where the value is documented as exact, a codeword of exactly the advertised weight exists -/
+theorem exact_distance_attained (d : DistInst) (hd : d ∈ Generated.C03.instances) (hk : d.knownBad = false)
+    (hadv : d.advD ≠ 0) (hex : d.exact = true) :
+    ∃ m, m ≠ 0 ∧ m < 2 ^ d.k ∧ weight d.n (encode d.G m) = d.advD := by
+  have h := (parts (instances_ok d hd)).2.1 hk
+  unfold distOk at h
+  simp only [Bool.or_eq_true, beq_iff_eq, Bool.not_eq_true', Bool.and_eq_true, decide_eq_true_eq] at h
+  rcases h with h | h
+  · exact absurd h hadv
+  · rcases h.2 with h2 | h2
+    · rw [hex] at h2; cases h2
+    · exact ⟨d.wit, by omega, h2.1.2, h2.2⟩
 
 /-- the listed findings (RS-style codes) are real: a non-zero codeword lighter than advertised -/
 theorem known_bad_witness (d : DistInst) (hd : d ∈ Generated.C03.instances) (hk : d.knownBad = true) :
@@ -149,7 +157,7 @@ theorem min_distance_large (c : InfoInst) (hc : c ∈ Generated.C03.infoInstance
 
 /-! ## non-vacuity -/
 example : ∃ c ∈ Generated.C03.infoInstances, c.k > 20 ∧ c.advD ≥ 3 := by decide +kernel
-example : ∃ d ∈ Generated.C03.instances, d.decided = true ∧ d.exact = true ∧ d.advD = 7 ∧ d.perfect = true := by
+example : ∃ d ∈ Generated.C03.instances, d.exact = true ∧ d.advD = 7 ∧ d.perfect = true := by
   decide +kernel
 example : ∃ d ∈ Generated.C03.instances, d.cyclic = true ∧ d.n = 15 := by decide +kernel
 
